@@ -23,7 +23,13 @@
 
 static jmp_buf jb;
 static int last_err, n_warn, n_bogus_icc;
-static void my_exit(j_common_ptr c) { last_err = c->err->msg_code; longjmp(jb, 1); }
+static char last_msg[JMSG_LENGTH_MAX];
+static void my_exit(j_common_ptr c)
+{
+  char *q; last_err = c->err->msg_code; (*c->err->format_message) (c, last_msg);
+  for (q = last_msg; *q; q++) if (*q == ' ' || *q == '\n') *q = '_';
+  longjmp(jb, 1);
+}
 static void my_emit(j_common_ptr c, int lvl)
 {
   if (lvl < 0) { c->err->num_warnings++; n_warn++; if (c->err->msg_code == JWRN_BOGUS_ICC) n_bogus_icc++; }
@@ -92,7 +98,7 @@ static void do_jc(char **f, int nf)
   psv = atoi(f[7]); pt = atoi(f[8]); restart = atoi(f[9]); jfif = f[10]; wj = f[11]; wa = f[12];
   iccpos = atoi(f[13]); icc = unhex(f[14], &iccn); markers = f[15];
   c.err = jpeg_std_error(&je); je.error_exit = my_exit; je.emit_message = my_emit; je.output_message = my_output;
-  if (setjmp(jb)) { printf("err %d\n", last_err); jpeg_destroy_compress(&c); free(out); free(icc); free(row); return; }
+  if (setjmp(jb)) { printf("err %d %s\n", last_err, last_msg); jpeg_destroy_compress(&c); free(out); free(icc); free(row); return; }
   jpeg_create_compress(&c);
   jpeg_mem_dest(&c, &out, &outsz);
   c.image_width = W; c.image_height = H;
